@@ -12,6 +12,7 @@
 -/
 import DfolsVerif.Kernels.Clip
 import DfolsVerif.Gen.CallSites
+import DfolsVerif.Gen.ClipFns
 
 namespace Dfols
 namespace C01
@@ -81,6 +82,26 @@ theorem C01_no_new_nan (add mul : Val → Val → Val) (l u b sl su x s : Int)
   simp only [valOps] at hadd ⊢
   rw [hadd]
   exact ⟨_, rfl⟩
+
+/-- layer G (translated code): `Model.as_absolute_coordinates`, `Model.xpt` (both branches), `util.remove_scaling`
+    (with the 4-tuple `solve()` builds) and the two masked assignments that push x0 into the box, as generated
+    from /repo's AST on this run, ARE the kernels the theorems above speak about (`rfl`) -/
+theorem gen_clip_fns {F : Type} (o : ClipOps F) (xl xu xbase sl su x shift scale : F) :
+    Gen.asAbs o xl xu xbase sl su x = asAbs o xl xu xbase sl su x ∧
+    Gen.xptAbs o xl xu xbase sl su x = asAbs o xl xu xbase sl su x ∧
+    Gen.xptRel o sl su x = clip o sl su x ∧
+    Gen.removeScaling o shift scale xl xu x = removeScaling o shift scale xl xu x ∧
+    Gen.clampX0 o xl xu x = clampX0 o xl xu x :=
+  ⟨rfl, rfl, rfl, rfl, rfl⟩
+
+/-- the bound theorem stated on the translated code: whatever `+`/`*` round to, the point produced by the
+    current source of `remove_scaling(as_absolute_coordinates(x))` is inside the user's box or NaN -/
+theorem C01_gen_eval_in_bounds (add mul : Val → Val → Val) (l u : Int) (h : l ≤ u)
+    (shift scale xlS xuS xbase sl su x : Val) :
+    InBoxOrNaN l u (Gen.removeScaling (valOps add mul) shift scale (.num l) (.num u)
+      (Gen.asAbs (valOps add mul) xlS xuS xbase sl su x)) := by
+  rw [(gen_clip_fns (valOps add mul) (.num l) (.num u) xbase sl su _ shift scale).2.2.2.1]
+  exact C01_removeScaling_in_bounds add mul l u h shift scale _
 
 /-- **provenance (layer G)**: every call site of `evaluate_objective` in /repo passes a value produced
     by `as_absolute_coordinates`, and every `objfun` evaluation goes through `remove_scaling` — read from
